@@ -774,7 +774,7 @@ fn oracle_summary(t: &str) -> Result<String, String> {
     }
 }
 fn search_c08(r: &mut Rng, iters: usize) -> bool {
-    for _ in 0..iters {
+    for it in 0..iters {
         let f = r.below(8) as u8;
         let t = gen_entry_text(r, f);
         let e = oracle_summary(&t);
@@ -804,9 +804,44 @@ fn search_c08(r: &mut Rng, iters: usize) -> bool {
                 witness("summary_completed", &[("text", t)], "true", "false");
                 return false;
             }
+            // every accessor returns its own variable's value(s): the 23 getters read one by one spell the canonical text again
+            // (the parsed text may carry repeated / reordered lines: compare with the oracle's rendering of the final values)
+            if let Ok(e) = summary_parse(&t) {
+                let (want, got) = (summary_render(&e), more::summary_getters(&s));
+                if want != got {
+                    witness("summary_getters", &[("text", t.clone())], &want, &got);
+                    return false;
+                }
+            }
+            // is_completed() of a value assembled through the API: true exactly when all eleven required variables are set - checked
+            // for every way of leaving one variable out and for random subsets (own random stream)
+            if let Ok(e) = summary_parse(&t) {
+                let mut r2 = Rng::new(0xC08_0000 + it as u64);
+                let single = if r2.below(2) == 0 { Some(r2.below(e.len())) } else { None };
+                let kept: Vec<usize> = (0..e.len()).filter(|&i| match single { Some(j) => i != j, None => r2.below(5) != 0 }).collect();
+                let script: String = kept.iter().map(|i| format!("a{}.0", i)).collect::<Vec<_>>().join(" ");
+                let want = SUM_REQUIRED.iter().all(|rq| kept.iter().any(|&i| e[i].0 == *rq));
+                let got = summary_completed_after(&e, &script);
+                if got != want {
+                    witness("summary_api_completed", &[("text", t.clone()), ("script", script)], &want.to_string(), &got.to_string());
+                    return false;
+                }
+            }
         }
     }
     true
+}
+/// C08: set the listed entries of `e` through the API on a fresh Summary and ask is_completed()
+fn summary_completed_after(e: &[(String, Vec<String>)], script: &str) -> bool {
+    let mut api = Summary::new();
+    for tok in script.split(' ').filter(|t| !t.is_empty()) {
+        if let Some(rest) = tok.strip_prefix('a') {
+            let (i, m) = rest.split_once('.').unwrap();
+            let (i, m): (usize, u8) = (i.parse().unwrap(), m.parse().unwrap());
+            more::api_apply(&mut api, &e[i].0, &e[i].1, m);
+        }
+    }
+    api.is_completed()
 }
 
 const MULTI: [&str; 6] = ["CONFLICTS", "DEPENDS", "DESCRIPTION", "PROVIDES", "REQUIRES", "SUPERSEDES"];
@@ -946,6 +981,22 @@ fn real_dinfo(d: &Distinfo) -> DInfo {
         sums: e.checksums.iter().map(|c| (c.digest.to_string(), c.hash.clone())).collect(), patch: e.filetype == pkgsrc::distinfo::EntryType::Patchfile };
     DInfo { rcsid: d.rcsid().map(|s| s.as_bytes().to_vec()), dist: d.distfiles().iter().map(conv).collect(), patch: d.patchfiles().iter().map(conv).collect() }
 }
+/// C11: every recorded file is found again under exactly its name, in its own table only (get_distfile / get_patchfile)
+fn lookup_report(d: &Distinfo) -> String {
+    let mut o = String::new();
+    let same = |a: Option<&Entry>, e: &Entry| match a { None => "none", Some(x) if x.filename == e.filename && x.checksums.len() == e.checksums.len() && x.size == e.size => "same", Some(_) => "other" };
+    for e in d.distfiles() { o.push_str(&format!("D:{} {} {};", hex(e.filename.as_os_str().as_bytes()), same(d.get_distfile(&e.filename), e), same(d.get_patchfile(&e.filename), e))); }
+    for e in d.patchfiles() { o.push_str(&format!("P:{} {} {};", hex(e.filename.as_os_str().as_bytes()), same(d.get_distfile(&e.filename), e), same(d.get_patchfile(&e.filename), e))); }
+    o.push_str(&format!("absent:{}{}", d.get_distfile("no/such-file").is_some(), d.get_patchfile("patch-no-such").is_some()));
+    o
+}
+fn lookup_expect(i: &DInfo) -> String {
+    let mut o = String::new();
+    for e in &i.dist { o.push_str(&format!("D:{} same none;", hex(&e.name))); }
+    for e in &i.patch { o.push_str(&format!("P:{} none same;", hex(&e.name))); }
+    o.push_str("absent:falsefalse");
+    o
+}
 const DNAMES: &[&[u8]] = &[b"foo-1.0.tar.gz", b"patch-aa", b"patch-local-x", b"emul-linux-patch-1", b"emul-patch-x", b"sub/dir/bar.tgz", b"foo\xc3\xa0bar", b"x\xc3\x85y",
     b"x\xe9y", b"patch-src_caf\xe9.c", b"patch-ab.orig", b"patch-x.tar.y", b"a", b"a//b", b"a/b", b"lib(3).pdf", b"patch-zz~", b"\xa0", b"n\x85", b"patch-ac", b"proj/foo-1.0.tar.gz",
     b"c#-mode-0.9.tar.gz", b"patch-src_c#.el", b"#x", b"a$b", b"x=y", b"a:b", b"(p)", b"a)b(c", b"q\\r", b"p%20q", b"emul-patch-1.0.tgz", b"emul-x-patch-2", b"patch-", b"a/./b", b"d/"];
@@ -955,6 +1006,8 @@ fn gen_dname(r: &mut Rng) -> Vec<u8> {
     let alpha: &[u8] = b"ab1-._/#$=:()[]{}%+~@!,;'\"\\\xc3\xa0\xe9\x85\xa0\xff";
     let mut n: Vec<u8> = match r.below(4) { 0 => b"patch-".to_vec(), 1 => b"emul-".to_vec(), _ => vec![] };
     for _ in 0..1 + r.below(7) { n.push(alpha[r.below(alpha.len())]); }
+    // the exclusion suffixes of the patch classification, each on patch-like and ordinary names (derived from the length: no extra draw)
+    match n.len() % 9 { 0 => n.extend_from_slice(b".rej"), 1 => n.extend_from_slice(b".orig"), 2 => n.push(b'~'), 3 => n.extend_from_slice(b".tar.gz"), 4 => { let mut m = b".rej".to_vec(); m.extend_from_slice(&n); n = m; } _ => {} }
     n
 }
 fn gen_dline(r: &mut Rng) -> Vec<u8> {
@@ -971,7 +1024,9 @@ fn gen_dline(r: &mut Rng) -> Vec<u8> {
         4 | 5 => { l.extend_from_slice(b"Size"); l.extend_from_slice(r.pick(&ws)); l.push(b'('); l.extend_from_slice(name); l.push(b')'); l.extend_from_slice(r.pick(&ws)); l.push(b'='); l.extend_from_slice(r.pick(&ws));
                    l.extend_from_slice(format!("{}", [0u64, 12, 4096, u64::MAX][r.below(4)]).as_bytes()); l.extend_from_slice(b" bytes"); }
         _ => { let a = r.pick(&["SHA1", "sha256", "BLAKE2s", "RMD160", "MD5", "SHA512", "Sha1"]); l.extend_from_slice(a.as_bytes()); l.extend_from_slice(r.pick(&ws)); l.push(b'('); l.extend_from_slice(name); l.push(b')');
-               l.extend_from_slice(r.pick(&ws)); l.push(b'='); l.extend_from_slice(r.pick(&ws)); l.extend_from_slice(r.pick(&[b"abc123".as_slice(), b"00ff", b"deadbeef"])); }
+               l.extend_from_slice(r.pick(&ws)); l.push(b'='); l.extend_from_slice(r.pick(&ws)); l.extend_from_slice(r.pick(&[b"abc123".as_slice(), b"00ff", b"deadbeef"]));
+               // the hash is opaque text: '#' in or after it does not make the line a comment, its case is kept (derived from the name: no extra draw)
+               match name.len() % 7 { 0 => l.push(b'#'), 1 => l.extend_from_slice(b"#ab"), 2 => l.extend_from_slice(b"ABCdef"), _ => {} } }
     }
     l
 }
@@ -983,6 +1038,11 @@ fn search_c11(r: &mut Rng, iters: usize) -> bool {
         let a = real_dinfo(&Distinfo::from_bytes(&t));
         if e != a {
             witness("distinfo_parse", &[("hextext", hex(&t))], &format!("{:?}", e), &format!("{:?}", a));
+            return false;
+        }
+        let (le, la) = (lookup_expect(&e), lookup_report(&Distinfo::from_bytes(&t)));
+        if le != la {
+            witness("distinfo_lookup", &[("hextext", hex(&t))], &le, &la);
             return false;
         }
     }
@@ -1252,6 +1312,11 @@ fn run_witness(args: &[String]) -> i32 {
                 Err(_) => "oracle-parse-error".into(),
             }
         }
+        "summary_getters" => match Summary::from_str(&g("text")) { Ok(s) => more::summary_getters(&s), Err(_) => "parse-error".into() },
+        "summary_api_completed" => match summary_parse(&g("text")) {
+            Ok(e) => summary_completed_after(&e, &g("script")).to_string(),
+            Err(_) => "oracle-parse-error".into(),
+        },
         "summary_api_steps" => match summary_parse(&g("text")) {
             // replay: the script up to the failing print; the answer is what that print shows
             Ok(e) => { let sc = g("script"); match summary_script(&e, &sc) { Some((_, _, got)) => got, None => expected.clone() } }
@@ -1268,6 +1333,7 @@ fn run_witness(args: &[String]) -> i32 {
             format!("{:?}", stream_run(&chunks))
         }
         "distinfo_parse" | "distinfo_api_roundtrip" => format!("{:?}", real_dinfo(&Distinfo::from_bytes(&unhexb(&g("hextext"))))),
+        "distinfo_lookup" => lookup_report(&Distinfo::from_bytes(&unhexb(&g("hextext")))),
         "distinfo_roundtrip" => hex(&Distinfo::from_bytes(&unhexb(&g("hextext"))).as_bytes()),
         "plist_entry" => format!("{:?}", PlistEntry::from_bytes(&unhexb(&g("hexline"))).ok()),
         "plist" => format!("{:?}", Plist::from_bytes(&unhexb(&g("hextext"))).ok().map(|p| format!("{:?}", p))),
